@@ -275,6 +275,32 @@ func (r *run) monitor(events []string, st *scheduler.VerifState, dump string) {
 			r.failf("violation", "C03", "C03.do_not_cache_never_merged", "Execute of client %s has do_not_cache set but was attached to an existing task instead of getting its own", pf[2])
 		}
 	}
+	// C06/C04: the scheduler's notion of time never runs backwards (deadlines, "least recently
+	// served" and stickiness windows are all measured with it) and never runs ahead of the clock
+	if r.prevSt != nil && st.Now.Before(r.prevSt.Now) {
+		tp := "C06"
+		if currentProp == "C04" {
+			tp = "C04"
+		}
+		r.failf("violation", tp, "C06.not_earlier / C04 (time is monotone)", "the scheduler's current time went back from %d to %d", r.prevSt.Now.Unix(), st.Now.Unix())
+	}
+	if st.Now.Unix() > r.w.clk.now {
+		r.failf("violation", "C06", "C06.not_earlier", "the scheduler's current time %d is ahead of the clock %d", st.Now.Unix(), r.w.clk.now)
+	}
+	// C02/C06: at the end of a segment every listening stream has been told the current stage of its
+	// task (a stage change wakes every waiter; only a Send that has not been released may lag behind)
+	for c, m := range r.streams {
+		cl := r.w.clients[c]
+		if cl == nil || cl.done || m.cancelled || m.done || m.op < 0 {
+			continue
+		}
+		if _, sending := r.w.sending[c]; sending {
+			continue
+		}
+		if tl := nowTask[strconv.Itoa(m.op)]; tl != nil && tl["st"] != strconv.Itoa(m.lastStage) {
+			r.failf("violation", timeoutProp(), "C06.every_sleeper_wakes / C02.eventually_done", "client %d listens to operation %d and was last told stage %d, but its task is in stage %s and nothing is in flight to the client", c, m.op, m.lastStage, tl["st"])
+		}
+	}
 	// C01: every uncompleted task is in exactly one place that the scheduler can still reach: its size
 	// class queue exists, and a queued task's operations sit in that queue's invocation tree
 	for i := range st.Tasks {
@@ -406,7 +432,11 @@ func (r *run) checkNotDrained(wk string, after *scheduler.VerifState) {
 	// The terminating mark belongs to a worker *registration*: when the worker of the previous segment
 	// had not synchronised for so long that it was removed as stale on entry, this Synchronize registered
 	// a fresh worker under the same id, which starts unmarked.  Drains are per queue and survive that.
+	// (only if the worker really had been silent that long by the harness's own account)
 	reRegistered := wb.Cleanup != nil && !wb.Cleanup.After(after.Now)
+	if last, ok := r.syncRet[wk]; ok && r.w.clk.now < last+r.w.cfg.workerTimeout {
+		reRegistered = false
+	}
 	why := ""
 	if wb.Terminating && !reRegistered {
 		why = "was marked as terminating"
